@@ -297,6 +297,25 @@ class SharedCoreHistory(Obligation):
         want = hook.symint_to_str(code) if isinstance(code, SymInt) else str(code)
         return any(len(x) == len(want) and bool(SymStr.lift(x) == want) for x in items)
 
+    def _items(self, text):
+        if text is None:
+            return None
+        body = None
+        for line in text.split("\n"):
+            if len(line) >= 6 and bool(line.startswith("codes:")):
+                body = line[len("codes:"):]
+        if body is None:
+            return None
+        return body.split(",") if len(body) else []
+
+    def _only(self, text, codes):
+        """every code the alias module lists is one of `codes` (nothing stale from an earlier document)"""
+        items = self._items(text)
+        if items is None:
+            return False
+        wants = [hook.symint_to_str(c) if isinstance(c, SymInt) else str(c) for c in codes]
+        return all(any(len(x) == len(w) and bool(SymStr.lift(x) == w) for w in wants) for x in items)
+
     def verdict(self, inp, r, which):
         if isinstance(r, Raised):
             return "history raised %s" % r.kind
@@ -318,6 +337,12 @@ class SharedCoreHistory(Obligation):
             want = "generation_error" if really_changed else "ok"
             if o[2] != want:
                 return "non-force run of client %s (document %s) ended %s, expected %s" % (who, "changed" if changed else "unchanged", o[2], want)
+        if which in ("c09", "both") and o[2] == "ok":
+            # generation is independent of prior runs: after the last step the alias module lists the codes of the
+            # current documents and nothing else (a forced regeneration with a changed document drops the old code)
+            cur_a = inp["ca2"] if (who == "a" and changed and force) else inp["ca"]
+            if not self._only(r["listed"][2], [cur_a, inp["cb"]]):
+                return "after the third step exception_aliases lists %r although the current documents declare only a=%r b=%r" % (c10._simp(r["listed"][2]), cur_a, inp["cb"])
         if which in ("c11", "both"):
             ca, cb, ca2 = inp["ca"], inp["cb"], inp["ca2"]
             if not self._lists(r["listed"][0], ca):
